@@ -218,6 +218,9 @@ pub fn k_exact(case: &Case) -> Outcome {
     if tol > 0 {
         o = o.count("constants decoded by tolerance fallback", tol);
     }
+    if gfp::literal_decoded() > 0 {
+        o = o.count("non-twiddle constants taken literally (exact dyadic value)", gfp::literal_decoded());
+    }
     o
 }
 
